@@ -449,7 +449,48 @@ class Ctx:
                 self.broken.append("proof: %s does not check (%s)" % (f, json.dumps(site) if site else out[-600:]))
                 self.notes["coq_error"] = out[-1500:]
                 ok_all = False
+        if ok_all and self.tier == "thorough" and not self.escalated and os.environ.get("VERIF_NO_COQCHK") != "1":
+            ok_all = self.coqchk(prop_files) and ok_all
         return ok_all
+
+    def coqchk(self, prop_files):
+        """Thorough tier: re-check the compiled property files and everything they depend on with the
+        independent checker and record the axioms it lists (coqchk -o).  A rejection is a broken
+        obligation; a timeout is recorded but not counted (the kernel already accepted the files)."""
+        mods = ["XV." + f[:-2] for f in prop_files]
+        res = {"modules": mods}
+        for attempt in (1, 2):
+            with Lock("coq"):
+                rc, out = sh(["coqchk", "-o", "-silent", "-Q", ".", "XV"] + mods, cwd=COQ, timeout=3000)
+            if rc == 124 and "[timeout after" in out:
+                rc = None
+            if rc == 0 or rc is None:
+                break
+        if rc is None:
+            res["result"] = "timed out (not counted)"
+            self.notes["coqchk"] = res
+            return True
+        m = re.search(r"\* Axioms:(.*?)\n\s*\n\* Constants/Inductives relying on type-in-type:(.*?)\n\s*\n\* Constants/Inductives relying on unsafe \(co\)fixpoints:(.*?)\n\s*\n\* Inductives whose positivity is assumed:(.*?)\n", out + "\n\n", flags=re.S)
+        if rc != 0 or not m:
+            res["result"] = "rejected"
+            res["output"] = out[-800:]
+            self.notes["coqchk"] = res
+            self.broken.append("coqchk does not accept %s: %s" % (", ".join(mods), out[-300:]))
+            return False
+        fields = [" ".join(x.split()) for x in m.groups()]
+        res.update({"result": "accepted", "axioms": fields[0], "type_in_type": fields[1], "unsafe_fixpoints": fields[2], "assumed_positivity": fields[3]})
+        self.notes["coqchk"] = res
+        bad = [f for f in fields[1:] if f != "<none>"]
+        if bad:
+            self.broken.append("coqchk: kernel checks switched off somewhere in the cone: " + "; ".join(bad))
+            return False
+        if fields[0] != "<none>":
+            names = [a.strip() for a in re.split(r"\s+", fields[0]) if a.strip()]
+            outside = [a for a in names if a not in AXIOM_WHITELIST and a.split(".")[-1] not in AXIOM_WHITELIST]
+            if outside:
+                self.broken.append("coqchk lists axioms outside the whitelist: " + ", ".join(outside))
+                return False
+        return True
 
     # --- finish ---------------------------------------------------------------------------
     def finish(self, level="proof", checker_cmd="", explanation=""):
